@@ -168,8 +168,12 @@ impl GrafeoDB {
 
                 // Check if WAL exists and recover if needed
                 if wal_path.exists() {
+                    // The log is the only persistent copy of the data: a checkpoint
+                    // marks a point in it and does not make the files before it
+                    // redundant, so every log file is replayed (recover() would skip
+                    // the files that precede the last checkpoint).
                     let recovery = WalRecovery::new(&wal_path);
-                    let records = recovery.recover()?;
+                    let records = recovery.recover_from_checkpoint(None)?;
                     Self::apply_wal_records(&store, &records)?;
                 }
 
